@@ -6,7 +6,7 @@ Model: `M.balanced` (the stack loop of Pattern::new) and `M.altMatch`
 (alternate_match after the fix: expand the right-most '{', re-compile, recurse).
 Spec: parse trees `S.Seq` with `render`, `wf`, `expand` (Spec/Brace.lean).
 -/
-import PkgsrcVerif.Lemmas.BraceMatch
+import PkgsrcVerif.Lemmas.BraceParse
 open M S
 
 /-- a pattern containing a brace compiles iff the stack loop accepts it, and then as an
@@ -73,6 +73,48 @@ theorem C04_pattern_matches (t : Seq) (n : Str) (hw : t.wf false = true) (hg : 0
   | true =>
     obtain ⟨e, he, hx⟩ := List.any_eq_true.mp hany
     simp [L.quick_of_expansion t e n he (L.expansionMatches_quick e n hx)]
+
+/-- **"compiles exactly when its braces are properly nested"**, with *properly nested* stated
+    as a grammar, not as a counter: a string containing a brace compiles iff it is the
+    rendering of some well-formed tree (groups `{ alt , … , alt }` of any depth, commas splitting
+    only inside their own group, literals never braces).  `→`: `L.tree_of_balanced` (first return
+    to the enclosing depth, strong induction on the length); `←`: `Seq.balanced_render`. -/
+theorem C04_compile_iff_grammar (p : Str) (hb : (p.contains '{' || p.contains '}') = true) :
+    (∃ pat, patternNew p = .ok pat) ↔ ∃ t : Seq, t.wf false = true ∧ t.render = p := by
+  constructor
+  · rintro ⟨pat, hp⟩
+    cases hbal : balanced p 0 with
+    | true => exact L.tree_of_balanced p hbal
+    | false => rw [(C04_compile_iff_balanced p hb).2 hbal] at hp; cases hp
+  · rintro ⟨t, hw, rfl⟩
+    exact ⟨_, C04_tree_compiles t hw hb⟩
+
+/-- a rejected brace pattern is rejected with the `Alternate` error, never reinterpreted as a
+    dewey / glob / plain pattern -/
+theorem C04_reject_is_alternate (p : Str) (hb : (p.contains '{' || p.contains '}') = true)
+    (hno : ¬ ∃ t : Seq, t.wf false = true ∧ t.render = p) : patternNew p = .error .alternate := by
+  cases hbal : balanced p 0 with
+  | true => exact absurd (L.tree_of_balanced p hbal) hno
+  | false => exact (C04_compile_iff_balanced p hb).2 hbal
+
+/-- **C04 for every pattern STRING** (no tree given in advance): whenever a string containing a
+    brace compiles, it has a well-formed parse tree, and for EVERY well-formed tree that renders
+    to it the compiled pattern matches a name iff some string of that tree's csh expansion
+    matches the name as a pattern in its own right.  (All parse trees of one string therefore
+    agree on what is matched.) -/
+theorem C04_every_pattern (p : Str) (pat : Pattern)
+    (hb : (p.contains '{' || p.contains '}') = true) (hp : patternNew p = .ok pat) :
+    (∃ t : Seq, t.wf false = true ∧ t.render = p) ∧
+    ∀ t : Seq, t.wf false = true → t.render = p → ∀ n, patternMatches pat n = t.expand.any (expansionMatches · n) := by
+  refine ⟨(C04_compile_iff_grammar p hb).1 ⟨pat, hp⟩, ?_⟩
+  rintro t hw rfl n
+  have hg : 0 < t.groups := by
+    cases hgz : t.groups with
+    | zero =>
+      have := L.render_no_brace_of_flat t false hw hgz
+      rw [this.1, this.2] at hb; simp at hb
+    | succ k => omega
+  exact C04_pattern_matches t n hw hg pat hp
 
 /-- non-vacuity: the tree of `{a{b,c},d}-1` is well formed, renders to that string and
     expands to exactly ab-1, ac-1, d-1 (so `ad-1` is not an expansion) -/
